@@ -282,6 +282,32 @@ func runC01(c *mon.Ctx) {
 	c.Note("bounded-exhaustive: %d values of depth<=1 (14 atoms, 6 keys) and %d of depth<=2 (4 atoms, 3 keys), each in 2-3 presentations", n1, n2)
 	c.SetExhaustive()
 
+	// (a2) key order, directed: every pair (and random larger sets) of keys from a pool in which the orders by code
+	// point, by UTF-16 code unit, by folded case and by length disagree
+	keyPool := []string{"", "a", "aa", "a\x00", "Z", "z", "\x7f", "\u0080", "\u07ff", "\u0800", "\ud7ff", "\ue000", "\ufb01", "\uff01", "\uffff", "\U00010000", "\U0001f408", "\U0010ffff",
+		"a\uffff", "a\U00010000", "a\ue000b", "a\U0001f600b", "\uffff\U00010000", "\U00010000\uffff", "é", "e\u0301", "É"}
+	kr := c.Rand("key-order")
+	nk := 0
+	for i1 := range keyPool {
+		for i2 := i1 + 1; i2 < len(keyPool); i2++ {
+			if nk++; !c.Mine(nk) {
+				continue
+			}
+			o := ref.O(keyPool[i2], ref.I(2), keyPool[i1], ref.I(1))
+			if kr.Chance(0.3) {
+				o = ref.O("outer", ref.A(o), keyPool[i1], ref.NullV())
+			}
+			one("key-order-pair", o, 2, false)
+		}
+	}
+	for k := 0; k < c.Scale(200, 20000); k++ {
+		o := ref.O()
+		for _, idx := range kr.Perm(len(keyPool))[:kr.Range(3, 8)] {
+			o.Set(keyPool[idx], ref.I(int64(idx)))
+		}
+		one("key-order-set", o, 2, false)
+	}
+
 	// (b) random deep values
 	r := c.Rand("values")
 	nRand := c.Scale(5000, 2000000)
